@@ -86,7 +86,7 @@ def consts(bs, low, high, nc, qids, kinds, ppslots, ppk, localmax, steps, snaps=
 
 
 BS = [1, 2, 3, 4]
-ALLK = ["ev", "qry", "merge", "uev", "lq", "restart"]
+ALLK = ["ev", "qry", "merge", "join", "uev", "lq", "restart"]
 
 
 def trace_cfg():
@@ -211,6 +211,14 @@ def directed(mc_ce):
         [ev(20, 1), rs(0), mg(19, [{"lt": 19, "ks": [2]}], 1, 1), ev(20, 1), ev(19, 2), rs(1), mg(1, [], 1, 1), ev(20, 1)],
         [{"a": "uev", "k": 1}, {"a": "lq"}, rs(0), mg(1, [], 1, 1, 1), ev(1, 1), qry(1, 1), mg(0, [{"lt": 1, "ks": [1]}], 1, 1)],
     ]
+    jn = lambda elt, evs, g, qlt=1: {"a": "join", "elt": elt, "qlt": qlt, "evs": evs, "join": 1, "ign": g}
+    # after a completed Serf.Join(ignoreOld) the node is joined by others: inbound merges with isJoin (flag not touched by the
+    # harness) must not move the cut-off, fresh events below the inbound joiner's event clock are delivered
+    hand += [
+        [jn(1, [], 1), mg(5, [], 1, 0), ev(4, 1), ev(3, 2), mg(21, [{"lt": 20, "ks": [1]}], 1, 0), ev(20, 2)],
+        [ev(2, 1), jn(3, [{"lt": 2, "ks": [1, 2]}], 1), ev(2, 2), jn(4, [{"lt": 3, "ks": [1]}], 0), mg(5, [{"lt": 4, "ks": [2]}], 1, 0), ev(4, 1)],
+        [ev(3, 1), rs(0), jn(2, [{"lt": 1, "ks": [1]}], 1), ev(3, 1), ev(2, 2), mg(5, [], 1, 0), ev(4, 2)],
+    ]
     return [(b, 1, s) for s in ([x for x in mc_ce if x] + hand) for b in BS]
 
 
@@ -222,12 +230,14 @@ def alphabet(snap, nlocal, reduced=False):
         for k in ([1] if reduced else [1, 2]):
             out.append({"a": "ev", "lt": lt, "k": k})
             out.append({"a": "qry", "lt": lt, "id": k, "nb": 0, "flt": 0})
-    flags = [(1, 1)] if reduced else [(0, 0), (1, 0), (1, 1)]
+    flags = [(1, 0), (1, 1)] if reduced else [(0, 0), (1, 0), (1, 1)]
     for (j, g) in flags:
         for elt in ts:
             out.append({"a": "merge", "elt": elt, "qlt": elt, "evs": [], "join": j, "ign": g})
         for lt in ([] if reduced else ts):
             out.append({"a": "merge", "elt": 1, "qlt": 0, "evs": [{"lt": lt, "ks": [1]}], "join": j, "ign": g})
+    for g in ([1] if reduced else [0, 1]):
+        out.append({"a": "join", "elt": 1, "qlt": 1, "evs": [], "join": 1, "ign": g})
     if snap == 1:
         out += [{"a": "restart", "crash": 0}] + ([] if reduced else [{"a": "restart", "crash": 1}])
     if nlocal < LOCALMAX:
@@ -300,12 +310,15 @@ def amplify(ctx, scheds, rep, two_step_for=3, limit=6):
                 for y in alphabet(sn, nl2, reduced=True):
                     out.append((b, sn, pre + [x, y]))
                 d = pre[-1]
-                if d["a"] in ("ev", "qry", "merge"):
+                if d["a"] in ("ev", "qry", "merge", "join"):
                     # the diverging input once more, with its time varied, in the changed context, then any message
-                    tkey = "elt" if d["a"] == "merge" else "lt"
+                    tkey = "elt" if d["a"] in ("merge", "join") else "lt"
                     for tau in sorted(set([d[tkey], 1, 3, 20, MAX])):
                         d2 = dict(d)
                         d2[tkey] = tau
+                        if d["a"] == "join":      # a real peer's clock is above everything it holds
+                            pos = lambda t: t if t <= MAX // 2 else t + 100000
+                            d2["evs"] = [sl for sl in d["evs"] if pos(sl["lt"]) < pos(tau)]
                         for y in alphabet(sn, nl2):
                             if y["a"] in ("ev", "qry") and y.get("k", y.get("id")) == 1:
                                 out.append((b, sn, pre + [x, d2, y]))
